@@ -3,6 +3,7 @@ package exec
 import (
 	"fmt"
 	"math"
+	"sort"
 	"strings"
 
 	zerr "github.com/DemoHn/Zn/pkg/error"
@@ -488,8 +489,16 @@ func evalImportStmt(vm *r.VM, node *syntax.ImportStmt) error {
 	if extModule != nil {
 		// import all symbols to current module's importRefs
 		if len(node.ImportItems) == 0 {
-			for name, val := range extModule.GetAllExportValues() {
-				if err := vm.DeclareExternalElement(r.NewIDName(name), val, extModule); err != nil {
+			// declare in a fixed (sorted) order, so that a name collision always reports
+			// the same name
+			exportValues := extModule.GetAllExportValues()
+			exportNames := make([]string, 0, len(exportValues))
+			for name := range exportValues {
+				exportNames = append(exportNames, name)
+			}
+			sort.Strings(exportNames)
+			for _, name := range exportNames {
+				if err := vm.DeclareExternalElement(r.NewIDName(name), exportValues[name], extModule); err != nil {
 					return err
 				}
 			}
